@@ -8,6 +8,7 @@ import (
 	"os"
 	"os/exec"
 	"path/filepath"
+	"regexp"
 	"sort"
 	"strconv"
 	"strings"
@@ -448,17 +449,34 @@ func cmdCheck(prop, tier string, rest []string) int {
 	return exit
 }
 
-// requiredReach: harness source may declare `// vh:require <id>` lines.
+// requiredReach: harness source may declare `// vh:require <id>` lines. A
+// one-line wrapper (`func A() { B(...) }`) inherits the requirements of the
+// function it calls in the same file.
 func requiredReach(h harnessRef) []string {
 	b, err := os.ReadFile(h.File)
 	if err != nil {
 		return nil
 	}
+	return requiredIn(strings.Split(string(b), "\n"), h.Func, 0)
+}
+
+var reWrapperCall = regexp.MustCompile(`\{\s*(\w+)\(`)
+
+func requiredIn(lines []string, fn string, depth int) []string {
 	var out []string
-	lines := strings.Split(string(b), "\n")
 	inFn := false
 	for _, l := range lines {
-		if strings.HasPrefix(l, "func "+h.Func+"()") {
+		if !inFn && strings.HasPrefix(l, "func "+fn+"(") {
+			if i := strings.Index(l, "// vh:require "); i >= 0 {
+				out = append(out, strings.Fields(l[i+len("// vh:require "):])...)
+			}
+			if strings.HasSuffix(strings.TrimSpace(strings.SplitN(l, "//", 2)[0]), "}") {
+				// one-liner
+				if m := reWrapperCall.FindStringSubmatch(l); m != nil && depth < 3 && m[1] != fn {
+					out = append(out, requiredIn(lines, m[1], depth+1)...)
+				}
+				return out
+			}
 			inFn = true
 			continue
 		}
